@@ -10,8 +10,8 @@
    any length) and literal argument tuples / dicts / scalars of any size. *)
 From Coq Require Import ZArith List Bool NArith.
 Import ListNotations.
-Require Import PV.Gen.FormatRe PV.Gen.FormatAccept PV.Format.Percent PV.Format.PyPercent PV.Format.Guards PV.Format.StrFormat PV.Format.FormatEval PV.Format.Typed.
-Require Import PV.Proofs.FormatPins PV.Proofs.FormatConv PV.Proofs.FormatPercent PV.Proofs.FormatStr PV.Proofs.FormatScan PV.Proofs.FormatEvalProofs PV.Proofs.FormatGen PV.Proofs.FormatTyped.
+Require Import PV.Gen.FormatRe PV.Gen.FormatAccept PV.Gen.FormatLoops PV.Format.Percent PV.Format.PyPercent PV.Format.Guards PV.Format.StrFormat PV.Format.FormatEval PV.Format.Typed.
+Require Import PV.Proofs.FormatPins PV.Proofs.FormatConv PV.Proofs.FormatPercent PV.Proofs.FormatStr PV.Proofs.FormatScan PV.Proofs.FormatEvalProofs PV.Proofs.FormatGen PV.Proofs.FormatTyped PV.Proofs.FormatStrScan.
 
 (* the regex text / flags / conversion sets / %c range the scanner model was written for *)
 Theorem C17_regex_pinned : regex_text = expected_regex_text /\ regex_flags = [2; 1]%N.
@@ -150,14 +150,19 @@ Print Assumptions C17_percent_guards_inhabited.
 (* ------------------------------------------------------------------ str.format *)
 (* fields in iter_replacement_fields order (nested ones included), any number of
    positional arguments, any keyword names.
-   CPython raises (numbering switch, IndexError, KeyError)  ==>  _str_format_impl reports,
-   unless the template mixes automatic and manual numbering (C17-format-auto-manual-mix) *)
+   CPython raises (numbering switch, IndexError, KeyError)  ==>  _str_format_impl reports;
+   no guard: the mixed-numbering class (former C17-format-auto-manual-mix) is repaired *)
 Theorem C17_format_raise_reported : forall fs nargs kw,
-  mix_clause fs = false ->
   py_fields_raise fs nargs kw AInit 0 = true ->
   nonempty (pa_fields_check fs nargs kw) = true.
 Proof. exact format_raise_reported. Qed.
 Print Assumptions C17_format_raise_reported.
+
+(* the field loop and CPython's numbering/lookup agree in every numbering state *)
+Theorem C17_format_loop_iff_raises : forall fs nargs kw st cur,
+  nonempty (loop_errs fs nargs kw st cur) = py_fields_raise fs nargs kw st cur.
+Proof. exact loop_err_iff_raises. Qed.
+Print Assumptions C17_format_loop_iff_raises.
 
 (* reported  ==>  CPython raises, or every report is the documented
    "... argument(s) were not used" rule; no guard needed *)
@@ -167,19 +172,15 @@ Theorem C17_format_report_sound : forall fs nargs kw,
 Proof. exact format_report_sound. Qed.
 Print Assumptions C17_format_report_sound.
 
-Theorem C17_format_raise_reported_refuted : ~ format_raise_reported_full_statement.
-Proof. exact format_raise_reported_refuted. Qed.
-Print Assumptions C17_format_raise_reported_refuted.
-
-(* "{} {0}".format(1): ValueError in CPython, nothing reported *)
+(* "{} {0}".format(1): ValueError in CPython, reported as a numbering switch *)
 Theorem C17_format_mix_witness :
   let fs := [mk_field ANone [] None false; mk_field (ANum 0) [] None false] in
-  py_fields_raise fs 1 [] AInit 0 = true /\ pa_fields_check fs 1 [] = [] /\ mix_clause fs = true.
+  py_fields_raise fs 1 [] AInit 0 = true /\ pa_fields_check fs 1 [] = [FMix] /\ mix_clause fs = true.
 Proof. exact format_mix_witness. Qed.
 Print Assumptions C17_format_mix_witness.
 
 Example C17_format_examples :
-  pa_format_check [123; 125; 32; 123; 48; 125]%N 1 [] = Some (RFields []) /\
+  pa_format_check [123; 125; 32; 123; 48; 125]%N 1 [] = Some (RFields [FMix]) /\
   py_format_verdict [123; 125; 32; 123; 48; 125]%N 1 [] = VRaises /\
   pa_format_check [123; 48; 125; 123; 49; 125]%N 1 [] = Some (RFields [FOutOfRange]) /\
   py_format_verdict [123; 48; 125; 123; 49; 125]%N 1 [] = VRaises /\
@@ -238,7 +239,6 @@ Print Assumptions C17_fragment_example.
 (* ------------------------------------------------------------------ str.format on characters, extended specification (phase 2) *)
 Theorem C17_format_chars_raise_reported : forall t nargs kw fs fs',
   pa_parse t = Some (fs, []) -> py_parse t = PYOk fs' -> map f_name fs = map f_name fs' ->
-  mix_clause fs' = false ->
   py_fields_raise fs' nargs kw AInit 0 = true ->
   option_map freport_reports (pa_format_check t nargs kw) = Some true.
 Proof. exact format_chars_raise_reported. Qed.
@@ -260,7 +260,6 @@ Print Assumptions C17_format_result_type.
 Theorem C17_format_full_raise_reported : forall a fs,
   forallb tfield_no_path fs = true ->
   forallb tfield_plain fs = true ->
-  mix_clause (flat_map flatten_tfield fs) = false ->
   eval_fields a fs AInit 0 = VR ->
   nonempty (pa_fields_check (flat_map flatten_tfield fs) (nargs_of a) (kw_of a)) = true.
 Proof. exact format_full_raise_reported. Qed.
@@ -393,3 +392,58 @@ Theorem C17_fstring_field_is_format_field : forall o conv spec,
   check_spec (apply_conv o conv) spec.
 Proof. exact fstring_field_is_format_field. Qed.
 Print Assumptions C17_fstring_field_is_format_field.
+
+(* ------------------------------------------------------------------ phase 4 *)
+(* str.format templates of any length without the characters . [ ! : (plain fields
+   and escapes): pyanalyze's parser records no error <-> CPython's parser accepts,
+   with the same fields; it records an error <-> CPython raises *)
+Theorem C17_format_scan_agree_fragment : forall t fs errs,
+  ffrag t = true -> pa_parse t = Some (fs, errs) ->
+  (errs = [] -> py_parse t = PYOk fs) /\ (errs <> [] -> py_parse t = PYRaise).
+Proof. exact format_scan_agree_fragment. Qed.
+Print Assumptions C17_format_scan_agree_fragment.
+
+(* hence, on that fragment, no hypothesis about CPython's parser and no guard at all *)
+Theorem C17_format_fragment_raise_reported : forall t nargs kw fs errs,
+  ffrag t = true -> pa_parse t = Some (fs, errs) ->
+  py_format_verdict t nargs kw = VRaises ->
+  option_map freport_reports (pa_format_check t nargs kw) = Some true.
+Proof. exact format_fragment_raise_reported. Qed.
+Print Assumptions C17_format_fragment_raise_reported.
+
+Theorem C17_format_fragment_report_sound : forall t nargs kw fs errs r,
+  ffrag t = true -> pa_parse t = Some (fs, errs) ->
+  pa_format_check t nargs kw = Some r -> freport_reports r = true ->
+  py_format_verdict t nargs kw = VRaises \/
+  (exists l, r = RFields l /\ forallb is_unused l = true).
+Proof. exact format_fragment_report_sound. Qed.
+Print Assumptions C17_format_fragment_report_sound.
+
+Example C17_format_fragment_example :
+  let t := [123; 97; 125; 123; 125; 123; 123; 120; 125; 125]%N in
+  ffrag t = true /\
+  pa_parse t = Some ([plain_field [97%N]; plain_field []], []) /\
+  py_parse t = PYOk [plain_field [97%N]; plain_field []].
+Proof. exact format_fragment_example. Qed.
+Print Assumptions C17_format_fragment_example.
+
+(* the loops translated from the source on this run are the model *)
+Theorem C17_gen_loops_are_model :
+  (forall specs, gen_needs_mapping specs = needs_mapping specs) /\
+  (forall specs, gen_serial_specifiers specs = serial_specifiers specs) /\
+  (forall is_bytes specs n, gen_pa_lint is_bytes specs n = pa_lint is_bytes specs n) /\
+  (forall is_bytes specs a,
+     accept_tuple is_bytes specs a =
+     gen_accept_tail (serial_accept is_bytes) (gen_serial_specifiers specs)
+       (match a with ATuple l => l | ADict _ => [OOther true] | AScalar o => [o] end)) /\
+  (forall is_bytes specs (l : list uval),
+     accept_tuple_typed is_bytes specs (TTuple l) =
+     gen_accept_tail (serial_accept_u is_bytes) (gen_serial_specifiers specs) l) /\
+  (forall fields nargs kw st cur, gen_field_loop fields nargs kw st cur = pa_field_loop fields nargs kw st cur) /\
+  (forall fields nargs kw, gen_fields_check fields nargs kw = pa_fields_check fields nargs kw).
+Proof.
+  exact (conj gen_needs_mapping_is_model (conj gen_serial_specifiers_is_model (conj gen_pa_lint_is_model
+        (conj gen_accept_tail_is_model (conj gen_accept_tail_typed_is_model
+        (conj gen_field_loop_is_model gen_fields_check_is_model)))))).
+Qed.
+Print Assumptions C17_gen_loops_are_model.
